@@ -36,6 +36,10 @@ static std::vector<Body> bodies() {
         {"WELTARG_q_bhp", "WELTARG\n '?' BHP 66 /\n/\n"},
         {"WCONPROD_q", "WCONPROD\n '?' OPEN LRAT 1* 1* 1* 333 1* 40 /\n/\n"},
         {"WCONINJE_I1", "WCONINJE\n 'I1' WATER OPEN RATE 321 1* 480 /\n/\n"},
+        {"WCONINJE_q_asI2", "WCONINJE\n '?' WATER OPEN RATE 150 1* 450 /\n/\n"},      // bodies that leave ONE of the matched wells exactly as it is
+        {"WCONPROD_q_asP2", "WCONPROD\n '?' OPEN ORAT 120 4* 60 /\n/\n"},
+        {"WELTARG_q_asP2", "WELTARG\n '?' ORAT 120 /\n/\n"},
+        {"WEFAC_q_one", "WEFAC\n '?' 1.0 /\n/\n"},
         {"WEFAC_q", "WEFAC\n '?' 0.7 /\n/\n"},
         {"GCONPROD", "GCONPROD\n 'G1' ORAT 1000 /\n/\n"},
         {"GCONINJE", "GCONINJE\n 'G2' WATER RATE 500 /\n/\n"},
@@ -87,12 +91,14 @@ static const char* months[] = {"FEB", "MAR", "APR", "MAY", "JUN"};
 static const int NSTEPS = 4;       // DATES keywords => report steps 0..4
 
 struct App { int action; int n; int mset; };   // action index (0: A1, 1: A2), report step, matching set index
-static const std::vector<std::vector<std::string>> msets = {{}, {"P1"}, {"P2"}, {"I1"}, {"P1", "P2"}, {"P1", "I1"}, {"P2", "I1"}, {"P1", "P2", "I1"}};
+static const std::vector<std::vector<std::string>> msets = {{}, {"P1"}, {"P2"}, {"I1"}, {"P1", "P2"}, {"P1", "I1"}, {"P2", "I1"}, {"P1", "P2", "I1"}, {"I1", "I2"}, {"P1", "P2", "I1", "I2"}, {"I2", "I1"}};
 
 // deck: prelude, ACTIONX definitions (A1 with body b1, A2 with body b2), background events bg1 in block 1 and bg2 in block 2,
 // and for the reference: inl[k] inserted at the end of block k
 static std::string make_deck(const std::string& b1, const std::string& b2, const std::string& bg1, const std::string& bg2, const std::vector<std::string>& inl) {
     std::string s = schedgen::base_deck() + schedgen::prelude_wells();
+    // a second injector, so that one '?' record can expand to two injectors of which one already has the requested controls
+    s += "WELSPECS\n 'I2' 'G1' 1 3 1* WATER /\n/\nCOMPDAT\n 'I2' 1 3 1 2 OPEN 1* 1* 0.2 /\n/\nWCONINJE\n 'I2' WATER OPEN RATE 150 1* 450 /\n/\n";
     s += "ACTIONX\n A1 10 /\n FOPR > 0 /\n/\n" + b1 + "ENDACTIO\n";
     if (!b2.empty()) s += "ACTIONX\n A2 10 /\n FOPR > 0 /\n/\n" + b2 + "ENDACTIO\n";
     for (int k = 0; k <= NSTEPS; ++k) {
@@ -166,7 +172,11 @@ static void run_case(const std::vector<Body>& B, int ib1, int ib2, int ibg1, int
             bool at_an_application_step = false; for (size_t q = 0; q <= ai; ++q) if (apps[q].n == (int)k) at_an_application_step = true;
             if (at_an_application_step && shuts_any) { R->count("excluded_per_report_step_semantics"); continue; }
             ScheduleState x = (*S)[k], y = (*Rf)[k];
-            if (at_an_application_step) { y.update_events(x.events()); y.update_wellgroup_events(x.wellgroup_events()); }
+            if (at_an_application_step) {
+                // "state n differs only by the action event marker": the marker bit is removed on both sides, every other event must agree
+                x.events().clearEvent(ScheduleEvents::ACTIONX_WELL_EVENT); y.events().clearEvent(ScheduleEvents::ACTIONX_WELL_EVENT);
+                for (const auto& wn : S->wellNames(k)) { x.wellgroup_events().clearEvent(wn, ScheduleEvents::ACTIONX_WELL_EVENT); y.wellgroup_events().clearEvent(wn, ScheduleEvents::ACTIONX_WELL_EVENT); }
+            }
             std::string cx = vf::canon(x), cy = vf::canon(y);
             if (cx != cy) { R->violation(std::string("C04:") + (at_an_application_step ? "state-n" : "later-state") + "-differs:" + tag + ":" + member_name(vf::first_diff_member(cx, cy)), "state " + std::to_string(k) + " after applyAction(n=" + std::to_string(a.n) + ") differs from the inlined reference: " + first_diff(cx, cy) + "; case " + casestr, rp); break; }
             if (!at_an_application_step) { std::string ox = obs::sched_state(*S, k), oy = obs::sched_state(*Rf, k); if (ox != oy) { R->violation("C04:later-state-queries-differ:" + tag, "state " + std::to_string(k) + " answers public queries differently from the inlined reference: " + first_diff(ox, oy) + "; case " + casestr, rp); break; } }
